@@ -10,14 +10,16 @@
      - whether the recorded result and the recorded files are exactly what the action relation yields
        (first mismatch -> register N + tid, with the spec's view of that step for classification), and
      - whether the REQUIREMENTS of the property hold in the state reached (first failure -> register
-       2N + tid, with the set of deviations that fired).
+       2N + tid, with the set of deviations that fired), and
+     - whether the property's post-conditions hold on the RECORDED observations themselves (files outside blocks
+       and read results against the ghost plain dict, unexpected exception classes; first failure -> 3N + tid).
    The POSTCONDITION exports one verdict record per trace as NDJSON. *)
 EXTENDS Documents, Json, IOUtils, TLCExt
 
 Traces == ndJsonDeserialize(IOEnv.TRACE_FILE)
 N == Len(Traces)
 None == [l |-> 0]
-ASSUME \A i \in 1..(3 * N) : TLCSet(i, None)
+ASSUME \A i \in 1..(4 * N) : TLCSet(i, None)
 
 VARIABLES tid, l
 Ev == Traces[tid].ev
@@ -43,6 +45,8 @@ Act ==
     [] E.op = "remove"     -> RemoveJob(H)
     [] E.op = "rekey"      -> RekeyJob(H)
     [] E.op = "reinit"     -> RemoveReinit(H)
+    [] E.op = "jclear"     -> ClearJob(H)
+    [] E.op = "jreset"     -> ResetJob(H)
 
 TrInit == Init /\ tid \in 1..N /\ l = 1
 TrNext == l <= Len(Ev) /\ Act /\ l' = l + 1 /\ UNCHANGED <<tid, steps>>
@@ -55,12 +59,26 @@ PostJsonOk == \A j \in 1..Len(Done.post) : LET r == Done.post[j] IN       \* the
              disk[r.f].ex = r.ex /\ (r.ex => JEq(disk[r.f].v, r.v))
 ResOk  == last.res = Done.res
 ResJsonOk == last.res.exc = Done.res.exc /\ JEq(last.res.v, Done.res.v)
+(* the property's post-conditions evaluated by TLC on the RECORDED real observations against the ghost plain dict
+   (ideal and depth depend on the operations only, so they stay valid after a step the specification cannot explain) *)
+KnownExc == {"KeyError", "AttributeError", "TypeError", "IndexError", "KeyTypeError", "InvalidKeyError"}
+RealDoc(r) == IF r.ex THEN r.v ELSE EmptyDoc
+Explained == TLCGet(N + tid).l = 0
+RealBad ==
+     (IF Done.res.exc # "" /\ last.res.exc = "" /\ Done.res.exc \notin KnownExc THEN <<"raises">> ELSE <<>>)
+  \o (IF depth = 0 /\ \E j \in 1..Len(Done.post) : ~JEq(RealDoc(Done.post[j]), ideal[Done.post[j].f]) THEN <<"file!=dict">> ELSE <<>>)
+  \o (IF depth = 0 /\ last.op = "read" /\ Done.res.exc = "" /\ ~JEq(Done.res.v, ideal[last.h[1]]) THEN <<"read!=dict">> ELSE <<>>)
+  \o (IF depth > 0 /\ last.op = "read" /\ Done.res.exc = "" /\ Explained /\ writers[last.h[1]] = {last.h}
+         /\ ~JEq(Done.res.v, ideal[last.h[1]]) THEN <<"read-own-writes">> ELSE <<>>)
 Failing == (IF Faithful THEN <<>> ELSE <<"Faithful">>) \o (IF OtherHandleSees THEN <<>> ELSE <<"OtherHandleSees">>)
            \o (IF ReadOwnWrites THEN <<>> ELSE <<"ReadOwnWrites">>) \o (IF ResultFaithful THEN <<>> ELSE <<"ResultFaithful">>)
 View(fs) == [j \in 1..Len(fs) |-> [f |-> fs[j], ex |-> disk[fs[j]].ex, v |-> disk[fs[j]].v, ideal |-> ideal[fs[j]]]]
 Track ==
   \/ l = 1
   \/ /\ TLCSet(tid, [l |-> l - 1])
+     /\ (TLCGet(3 * N + tid).l = 0 /\ RealBad # <<>>)
+          => TLCSet(3 * N + tid, [l |-> l - 1, which |-> RealBad, conform |-> (Explained /\ PostJsonOk /\ ResJsonOk), exc |-> Done.res.exc,
+                                  files |-> View(FileSeq), depth |-> depth, dev |-> SetToSeq(dev \cup HypoDev)])
      /\ (TLCGet(N + tid).l = 0 /\ ~(PostOk /\ ResOk))
           => TLCSet(N + tid, [l |-> l - 1, resok |-> ResOk, postok |-> PostOk, resjson |-> ResJsonOk, postjson |-> PostJsonOk,
                               res |-> last.res, files |-> View(FileSeq), depth |-> depth,
@@ -71,5 +89,5 @@ Track ==
 Post == /\ TLCGet("level") >= 0
         /\ ndJsonSerialize(IOEnv.TRACE_OUT,
              [i \in 1..N |-> [id |-> Traces[i].id, len |-> Len(Traces[i].ev), done |-> TLCGet(i).l,
-                              mis |-> TLCGet(N + i), req |-> TLCGet(2 * N + i)]])
+                              mis |-> TLCGet(N + i), req |-> TLCGet(2 * N + i), bad |-> TLCGet(3 * N + i)]])
 =============================================================================
